@@ -40,6 +40,20 @@ IdealEqCat(c, d)   == KeySet(c) = KeySet(d) /\ \A k \in KeySet(c) : ValOf(c, k) 
 IdealEqBlock(b, d) == KeySet(b) = KeySet(d) /\ \A k \in KeySet(b) : IdealEqCat(ValOf(b, k), ValOf(d, k))
 IdealEqFile(f, d)  == KeySet(f) = KeySet(d) /\ \A k \in KeySet(f) : IdealEqBlock(ValOf(f, k), ValOf(d, k))
 
+(* The other operand of an equality call is a literal or is derived from the container itself:
+     "self"     an independent copy (same keys, same order)
+     "rev"      the same mapping, keys inserted in the opposite order     (always equal)
+     "revkeys"  the keys in the opposite order over the values in their old positions, i.e. key i
+                carries the value of key n+1-i (equal iff these values are pairwise equal)
+   Equality of mappings must depend on which key carries which value and on nothing else; the two
+   derived operands separate "by key" from "by position" in both directions. *)
+EqSelfKinds == {"self", "rev", "revkeys"}
+Derived(kind, m) ==
+  CASE kind = "self"    -> m
+    [] kind = "rev"     -> Reverse(m)
+    [] kind = "revkeys" -> [i \in DOMAIN m |-> KV(m[Len(m) + 1 - i].k, m[i].v)]
+EqOther(id, m, Lit(_)) == IF id \in EqSelfKinds THEN Derived(id, m) ELSE Lit(id)
+
 (* ================================================================== Impl: lazy containers *)
 El(k, lz, v) == [k |-> k, lz |-> lz, v |-> v]
 \* a freshly constructed (parsed) object from a literal
@@ -142,6 +156,11 @@ FileLit(id) ==
     [] id = "F2" -> <<KV("b2", BlockLit("B0")), KV("b1", BlockLit("B1"))>>
     [] id = "F3" -> <<KV("b1", BlockLit("B2")), KV("b3", BlockLit("B1"))>>
 
+(* CSet carries a third argument, the representation in which the caller hands the column over:
+   "col" a column object, "data" a data object that __setitem__ wraps into a column itself.  A
+   mapping stores the value whatever its representation: neither Ideal nor Impl looks at it. *)
+ColForms == {"col", "data"}
+
 Res(f, oc, out, kb) == [f |-> f, oc |-> oc, out |-> out, kb |-> kb]
 Refuse(f, oc) == Res(f, oc, <<>>, {})
 
@@ -165,7 +184,7 @@ IdealApplyAt(fl, F, pb, pc, op, a) ==
     [] op = "FIter"     -> I(F, "ok", Keys(F))
     [] op = "FLen"      -> I(F, "ok", Len(F))
     [] op = "FContains" -> I(F, "ok", HasKey(F, a[1]))
-    [] op = "FEq"       -> I(F, "ok", IF a[1] = "self" THEN TRUE ELSE IdealEqFile(F, FileLit(a[1])))
+    [] op = "FEq"       -> I(F, "ok", IdealEqFile(F, EqOther(a[1], F, FileLit)))
     [] op \in {"Reload", "Peek"} ->
          IF ~IdealSerializable(F) THEN No("Rejected")
          ELSE I(F, "ok", IF op = "Peek" THEN F ELSE <<>>)
@@ -176,7 +195,7 @@ IdealApplyAt(fl, F, pb, pc, op, a) ==
     [] op = "BIter"     -> I(F, "ok", Keys(B))
     [] op = "BLen"      -> I(F, "ok", Len(B))
     [] op = "BContains" -> I(F, "ok", HasKey(B, a[1]))
-    [] op = "BEq"       -> I(F, "ok", IF a[1] = "self" THEN TRUE ELSE IdealEqBlock(B, BlockLit(a[1])))
+    [] op = "BEq"       -> I(F, "ok", IdealEqBlock(B, EqOther(a[1], B, BlockLit)))
     [] ~hasC            -> No("KeyError")
     [] op = "CSet"      -> I(WithC(Put(C, KV(a[1], a[2]))), "ok", <<>>)
     [] op = "CGet"      -> IF HasKey(C, a[1]) THEN I(F, "ok", ValOf(C, a[1])) ELSE No("KeyError")
@@ -187,7 +206,7 @@ IdealApplyAt(fl, F, pb, pc, op, a) ==
     [] op = "CIter"     -> I(F, "ok", Keys(C))
     [] op = "CLen"      -> I(F, "ok", Len(C))
     [] op = "CContains" -> I(F, "ok", HasKey(C, a[1]))
-    [] op = "CEq"       -> I(F, "ok", IF a[1] = "self" THEN TRUE ELSE IdealEqCat(C, CatLit(a[1])))
+    [] op = "CEq"       -> I(F, "ok", IdealEqCat(C, EqOther(a[1], C, CatLit)))
 
 (* ------------------------------------------------------------------ recorded defects *)
 \* BinaryCIFBlock.__delitem__ called super().__setitem__("_" + key) with one argument: TypeError.
@@ -229,7 +248,7 @@ ApplyAt(fl, f, pb, pc, op, a) ==
     [] op = "FIter"     -> Res(f, "ok", Keys(f), {})
     [] op = "FLen"      -> Res(f, "ok", Len(f), {})
     [] op = "FContains" -> Res(f, "ok", HasKey(f, a[1]), {})
-    [] op = "FEq"       -> LET q == EqFile(fl, f, IF a[1] = "self" THEN AbsFile(f) ELSE FileLit(a[1]))
+    [] op = "FEq"       -> LET q == EqFile(fl, f, EqOther(a[1], AbsFile(f), FileLit))
                            IN Res(q.v, "ok", q.eq, {})
     [] op \in {"Reload", "Peek"} ->
          IF ~IdealSerializable(AbsFile(f)) THEN Refuse(WalkFile(fl, f).v, "Rejected")
@@ -248,7 +267,7 @@ ApplyAt(fl, f, pb, pc, op, a) ==
     [] op = "BIter"     -> Res(g, "ok", Keys(B), {})
     [] op = "BLen"      -> Res(g, "ok", Len(B), {})
     [] op = "BContains" -> Res(g, "ok", HasKey(B, a[1]), {})
-    [] op = "BEq"       -> LET q == EqBlock(fl, B, IF a[1] = "self" THEN AbsBlock(B) ELSE BlockLit(a[1]))
+    [] op = "BEq"       -> LET q == EqBlock(fl, B, EqOther(a[1], AbsBlock(B), BlockLit))
                            IN Res(WithB(q.v), "ok", q.eq, {})
     [] ci = 0           -> Refuse(g, "KeyError")
     \* CSet / CDel: the cached row count is dropped (self._row_count = None, since c2b1fbb3)
@@ -262,7 +281,7 @@ ApplyAt(fl, f, pb, pc, op, a) ==
     [] op = "CIter"     -> Res(h, "ok", Keys(C.cols), {})
     [] op = "CLen"      -> Res(h, "ok", Len(C.cols), {})
     [] op = "CContains" -> Res(h, "ok", HasKey(C.cols, a[1]), {})
-    [] op = "CEq"       -> LET q == EqCat(fl, C, IF a[1] = "self" THEN AbsCat(C) ELSE CatLit(a[1]))
+    [] op = "CEq"       -> LET q == EqCat(fl, C, EqOther(a[1], AbsCat(C), CatLit))
                            IN Res(WithC(q.v), "ok", q.eq, {})
 
 \* what the defective code does where a KB_* predicate holds: refuses, nothing deleted / written
